@@ -42,6 +42,7 @@
      _assemble_index_chunk (zarr indexer shape of a slice)       copyChunkss, copyAxisBlock, copyBlock, selLen, mergeOk
   core/indexing.py index / _target_chunk_selection               Sel, indexChunkLen, indexChunkss, indexAxisBlock, indexBlock
   key function of squeeze (block 0 on the dropped axes)          unsqueezeCoords
+  core/indexing.py BlockView.__getitem__                          blocksChunkss, blocksBlock
   array_api/linalg.py _qr_first_step / _qr_second_step /
      _qr_third_step, numpy.linalg.qr (reduced)                   qrShapes, qr1Chunkss, qr1Block, qr2…, qr3…
   core/ops.py reduction (shape of the result)                    reducedShape
@@ -657,6 +658,22 @@ def indexBlock : Chunks → List Sel → List Nat → Option (List Nat)
   | [], [], [] => some []
   | _ :: cs, .int :: ss, bs => indexBlock cs ss bs
   | c :: cs, s :: ss, b :: bs => consOpt (indexAxisBlock c s b) (indexBlock cs ss bs)
+  | _, _, _ => none
+
+/-! ## BlockView (`Array.blocks[...]`) -/
+
+/-- `BlockView.__getitem__`: per axis the list of selected block indexes (an integer is the one-element list, a
+slice its range, a list of block indexes itself — any order, repeats allowed).  Declared chunks
+`np.array(ch)[sel]`: the real sizes of the selected blocks. -/
+def blocksChunkss : Chunks → List (List Nat) → Option Chunks
+  | [], [] => some []
+  | c :: cs, idx :: is => consOpt (allSome (idx.map (fun i => c[i]?))) (blocksChunkss cs is)
+  | _, _ => none
+
+/-- the block function is the identity on input block `sel[coords]` (`get_dim_index`). -/
+def blocksBlock : Chunks → List (List Nat) → List Nat → Option (List Nat)
+  | [], [], [] => some []
+  | c :: cs, idx :: is, b :: bs => consOpt ((idx[b]?).bind (fun i => c[i]?)) (blocksBlock cs is bs)
   | _, _, _ => none
 
 /-! ## tall-and-skinny QR -/
